@@ -20,6 +20,7 @@ type XMLGenConfig struct {
 	NonASCII    bool
 	EmptyCDATA  bool
 	MixedText   bool
+	Entities    bool // the reader is given the custom entity ent = "EV"; some "EV" are written as &ent;
 	LangBias    bool // many xml:lang attributes (for lang() workloads)
 	Wide        bool // some elements get 17-60 children (size thresholds)
 }
@@ -36,6 +37,7 @@ func DrawXMLConfig(t *simkit.Tape) XMLGenConfig {
 	c.XMLDecl = t.Bool(1, 2)
 	c.MixedText = t.Bool(2, 3)
 	c.EmptyCDATA = c.CDATA && t.Bool(1, 6)
+	c.Entities = t.Bool(1, 6)
 	c.LangBias = t.Bool(1, 5)
 	c.Wide = t.Bool(1, 8)
 	if c.XMLDecl {
@@ -44,9 +46,10 @@ func DrawXMLConfig(t *simkit.Tape) XMLGenConfig {
 	return c
 }
 
-var uriPool = []string{"urn:a", "urn:b", "http://x.example/y?z=1&w=2", "urn:c:d"}
+// "urn:a"+"bc" == "urn:ab"+"c": expanded names that collide when URI and local name are glued without a separator
+var uriPool = []string{"urn:a", "urn:b", "http://x.example/y?z=1&w=2", "urn:c:d", "urn:ab"}
 var prefixPool = []string{"p", "q", "r", "xs"}
-var localPool = []string{"a", "b", "c", "item", "x-y", "n.1", "_u"}
+var localPool = []string{"a", "b", "c", "item", "x-y", "n.1", "_u", "bc"}
 var localPoolNA = []string{"é", "日本", "ñame"}
 
 type xmlGen struct {
@@ -86,6 +89,14 @@ func (g *xmlGen) text(max int, restrict bool) string {
 	for i := 0; i < n; i++ {
 		if g.t.Bool(1, 12) {
 			b.WriteString("]]>")
+			continue
+		}
+		if g.t.Bool(1, 30) {
+			b.WriteString("?>") // legal in text and attribute values (sanitised out of PIs)
+			continue
+		}
+		if g.cfg.Entities && !restrict && g.t.Bool(1, 10) {
+			b.WriteString("EV")
 			continue
 		}
 		if !restrict && g.t.Bool(1, 25) {
@@ -150,7 +161,9 @@ func (g *xmlGen) pi() *Node {
 	target := []string{"pi", "xml-stylesheet", "t", "php"}[g.t.Draw(4)]
 	v := g.text(6, true)
 	v = strings.ReplaceAll(v, "\r", "")
-	v = strings.ReplaceAll(v, "?>", "?")
+	for strings.Contains(v, "?>") {
+		v = strings.ReplaceAll(v, "?>", "?")
+	}
 	v = strings.TrimLeft(v, " \t\n")
 	if g.t.Bool(1, 6) {
 		v = ""
@@ -215,7 +228,12 @@ func (g *xmlGen) element(depth int, parentScope map[string]string) *Node {
 		g.nodes++
 	}
 	na := g.t.Pick(4, 3, 2, 1)
-	for i := 0; i < na && g.nodes < g.cfg.MaxNodes; i++ {
+	attrBudget := g.cfg.MaxNodes
+	if g.cfg.Wide && g.t.Bool(1, 4) {
+		na = 4 + g.t.Draw(12) // 5-16 attributes: slice-capacity thresholds
+		attrBudget = g.nodes + na + 1
+	}
+	for i := 0; i < na && g.nodes < attrBudget; i++ {
 		a := &Node{Kind: KAttr}
 		acands := []string{""}
 		for _, p := range prefixPool {
@@ -233,6 +251,9 @@ func (g *xmlGen) element(depth int, parentScope map[string]string) *Node {
 				a.Space = scope[a.Prefix]
 			}
 			a.Local = g.name()
+			if na > 4 {
+				a.Local = fmt.Sprintf("%s%d", a.Local, i)
+			}
 			a.Value = g.text(5, false)
 			if g.t.Bool(1, 6) {
 				a.Value = ""
@@ -342,6 +363,11 @@ func (s *xmlSer) chars(v string, attrQuote rune) {
 	}
 	for i := 0; i < len(rs); i++ {
 		r := rs[i]
+		if s.cfg.Entities && r == 'E' && i+1 < len(rs) && rs[i+1] == 'V' && s.t.Bool(2, 3) {
+			s.b.WriteString("&ent;")
+			i++
+			continue
+		}
 		// CDATA run (text only)
 		if attrQuote == 0 && s.cfg.CDATA && s.t.Bool(1, 5) {
 			l := s.t.Range(0, 6)
